@@ -46,7 +46,7 @@ Print Assumptions C17_ood_walk_readonly.
 
 Example C17_example :
   let sc := {| s_deps := [[115]]; s_ifcreate := []; s_always := false; s_stamp := false;
-               s_out := OStdout; s_payload := 9; s_cat := true; s_exit := 0%Z |} in
+               s_out := OStdout; s_payload := 9; s_cat := true; s_exit := 0%Z; s_tol := false |} in
   let h := [SWrite [115] [1]; SWriteDo [116;46;100;111] sc; SCmd (CIfChange false [[116]]); SCmd COod;
             SWrite [115] [2]; SCmd COod; SCmd CTargets; SCmd CSources] in
   map (fun x => match snd x with Some (OutList l) => Some l | _ => None end) (run_history h (init_world 0))
